@@ -5,7 +5,7 @@
 -/
 import RumaModel.Driver.AuthCommon
 import RumaModel.Model.PowerLevels
-import RumaModel.Model.Push
+import RumaModel.Lemmas.PowerLevelsPush
 namespace Ruma.Driver.C20
 open Ruma Ruma.Proto Ruma.Auth Ruma.Ident Ruma.PowerLevels Ruma.Driver.AuthCommon
 
@@ -108,8 +108,7 @@ def pushApplies (p : Levels) (user : Str) : Bool :=
   let ctx : Push.Ctx :=
     { roomId := toText (bs "!room:s1"), memberCount := 2, userId := toText (bs "@push-owner:s9"),
       displayName := [],
-      powerLevels := some { users := (sortMap p.users).map (fun kv => (toText kv.1, kv.2)),
-                            usersDefault := p.usersDefault, room := p.notificationsRoom } }
+      powerLevels := some (toPushCtx toText p) }
   let ev : Push.FMap := [(Push.kSender, .str (toText user))]
   match Push.Cond.applies pushExt (.senderNotificationPermission Push.kRoom) ev ctx with
   | .ok b => b
